@@ -30,7 +30,7 @@ OPAQUE_ASSUMPTION = {"what": "types from other crates or never inspected by the 
                              "ValueAndUnit, JoinSide, InterpolateItem, SwitchCase)", "count": N_OPAQUE_TOKENS}
 
 
-def rq_module(X, with_transform=True):
+def rq_module(X, with_transform=True, real_items=False):
     """Returns text of `pub mod generic {..}`, `pub mod rq {..}` and the parser's Literal."""
     lit = X.type_item(LR, "enum", "Literal").drop_attrs()
     rng = X.type_item(P_GENERIC, "struct", "Range").drop_attrs()
@@ -39,8 +39,13 @@ def rq_module(X, with_transform=True):
     wf = X.type_item(IR_GENERIC, "struct", "WindowFrame").drop_attrs()
     wk = X.type_item(IR_GENERIC, "enum", "WindowKind").drop_attrs()
     wf.rewrite("R6", "generic::Range<T>", "Range<T>", why="same module in the generated file")
-    generic = ("pub mod generic {\nuse super::*;\n" + "\n".join([rng.text, csort.text, sdir.text, wf.text, wk.text]) +
-               "\npub type InterpolateItem<T> = OpaqueOf<T>;\npub type SwitchCase<T> = OpaqueOf<T>;\n}\n"
+    if real_items:
+        ii = X.type_item(P_GENERIC, "enum", "InterpolateItem").drop_attrs()
+        sc = X.type_item(P_GENERIC, "struct", "SwitchCase").drop_attrs()
+        items_text = "\n" + ii.text + "\n" + sc.text + "\n}\n"
+    else:
+        items_text = "\npub type InterpolateItem<T> = OpaqueOf<T>;\npub type SwitchCase<T> = OpaqueOf<T>;\n}\n"
+    generic = ("pub mod generic {\nuse super::*;\n" + "\n".join([rng.text, csort.text, sdir.text, wf.text, wk.text]) + items_text +
                "pub use generic::{Range, ColumnSort, SortDirection, WindowFrame, WindowKind};\n")
     cid = X.type_item(RQ_IDS, "struct", "CId").drop_attrs()
     tid = X.type_item(RQ_IDS, "struct", "TId").drop_attrs()
